@@ -102,6 +102,9 @@ namespace chaiscript {
         case utility::hash("-="): {
           return Opers::assign_difference;
         }
+        case utility::hash("/="): {
+          return Opers::assign_quotient;
+        }
         case utility::hash("&="): {
           return Opers::assign_bitwise_and;
         }
